@@ -490,3 +490,44 @@ pub fn check_c18() -> PropertyCheck {
     assumptions: vec!["single-threaded histories only (as the property states)"],
   }
 }
+
+/// Executor-fidelity self-test: the FIFO policy of the simulated executor vs a
+/// real `futures::executor::LocalPool` driving the same generated pipelines
+/// (virtual timers and clock on both sides). Returns the number of differing runs.
+pub fn fidelity(n: u64, master: u64) -> u64 {
+  crate::world::install_hooks();
+  let mut diffs = 0;
+  let mut compared = 0;
+  let mut deliveries = 0usize;
+  crate::pipe::FIDELITY.with(|f| f.set(true));
+  for i in 0..n {
+    let mut rng = Rng::new(crate::rng::derive_seed(master, "fidelity", i));
+    let mut c = gen_case(&mut rng, Tier::Quick, 3, (1, 4), vec![]);
+    c.threads_flavour = false;
+    c.fifo = true;
+    let a = match run_pipeline_on(&c, false) {
+      Ok(r) => r,
+      Err(_) => continue,
+    };
+    let b = match run_pipeline_on(&c, true) {
+      Ok(r) => r,
+      Err(_) => continue,
+    };
+    compared += 1;
+    let ta: Vec<(Ev, u64)> = a.recs.iter().map(|r| (r.ev.clone(), r.t)).collect();
+    let tb: Vec<(Ev, u64)> = b.recs.iter().map(|r| (r.ev.clone(), r.t)).collect();
+    deliveries += ta.len();
+    if ta != tb || a.panic.is_some() != b.panic.is_some() {
+      diffs += 1;
+      if diffs <= 5 {
+        println!("DIFF #{}: {}", i, serde_json::to_string(&c.root).unwrap_or_default());
+        println!("  script: {}", a.trace.trim());
+        println!("  sim FIFO : {}", a.recs.iter().map(|r| format!("{}@{}", fmt_ev(&r.ev), r.t / crate::world::MS)).collect::<Vec<_>>().join(" "));
+        println!("  LocalPool: {}", b.recs.iter().map(|r| format!("{}@{}", fmt_ev(&r.ev), r.t / crate::world::MS)).collect::<Vec<_>>().join(" "));
+      }
+    }
+  }
+  crate::pipe::FIDELITY.with(|f| f.set(false));
+  println!("fidelity: {} pipelines compared (scheduler-using operators over-weighted), {} deliveries, {} differing", compared, deliveries, diffs);
+  diffs
+}
